@@ -77,6 +77,16 @@ def gen(rng, tier, index):
     if name == "ScipyIVP":
         solver["kwargs"] = {"method": str(rng.choice(["RK45", "DOP853", "Radau"])), "rtol": 1e-10, "atol": 1e-12}
     splits = sorted({int(x) for x in rng.integers(1, n, size=3)})
+    # the time origin is arbitrary: runs that do not start at zero, some of them crossing t = 0 exactly at a split
+    x = rng.random()
+    if x < 0.2:
+        dtd = float(2.0 ** -int(rng.integers(6, 9)))  # dyadic step: t0 + k*dt is exact
+        solver["dt"] = dtd
+        m = int(rng.integers(1, n))
+        scene["t0"] = -m * dtd
+        splits = sorted({m, *splits[:2]})
+    elif x < 0.4:
+        scene["t0"] = float(rng.uniform(-1.0, 2.0))
     if kind == "revolute_spring":
         splits = sorted({int(rng.integers(1, max(n // 4, 2))), *splits[1:]})
     return {
